@@ -350,6 +350,16 @@ impl Qcow2Header {
             return Err("qcow2 image of virtual size 0 is not supported".into());
         }
 
+        // the biggest L1 table there can be has to cover the whole image
+        let l2_span = (cluster_size / size_of::<u64>() as u64) * cluster_size;
+        let size = header.size;
+        if size.div_ceil(l2_span) > Self::MAX_L1_SIZE as u64 / size_of::<u64>() as u64 {
+            return Err(format!(
+                "qcow2 image of virtual size {size} is too big for {cluster_size} byte clusters"
+            )
+            .into());
+        }
+
         let backing_filename = if header.backing_file_offset != 0 {
             let (offset, length) = (header.backing_file_offset, header.backing_file_size);
             if length > 1023 {
